@@ -53,6 +53,51 @@ def _kinds_in_test(test: ast.AST) -> Tuple[Optional[str], Set[str]]:
     return None, set()
 
 
+# ---------------------------------------------------------------------------
+# roles of local variables (rules never rely on how a local is spelled)
+
+
+def _event_names(fn: ast.AST) -> Set[str]:
+    """Locals bound to `<rec>.node_event(<node>)`."""
+    out = set()
+    for node in ast.walk(fn):
+        if isinstance(node, ast.Assign) and isinstance(node.value, ast.Call) and isinstance(node.value.func, ast.Attribute):
+            if node.value.func.attr == "node_event":
+                out |= {t.id for t in node.targets if isinstance(t, ast.Name)}
+    return out
+
+
+def _mapping_names(fn: ast.AST) -> Set[str]:
+    """Locals bound to `<rec>.object_species` (the species mapping)."""
+    out = set()
+    for node in ast.walk(fn):
+        if isinstance(node, ast.Assign) and isinstance(node.value, ast.Attribute) and node.value.attr == "object_species":
+            out |= {t.id for t in node.targets if isinstance(t, ast.Name)}
+    return out or {"mapping"}
+
+
+def _species_loop_var(fn: ast.AST) -> Optional[str]:
+    """Loop variable of the traversal of the species tree that encloses the traversal of the object tree."""
+    for node in ast.walk(fn):
+        if isinstance(node, ast.For) and isinstance(node.iter, ast.Call) and isinstance(node.iter.func, ast.Attribute) and node.iter.func.attr == "traverse":
+            inner = [
+                n for st in node.body for n in ast.walk(st)
+                if isinstance(n, ast.For) and isinstance(n.iter, ast.Call) and isinstance(n.iter.func, ast.Attribute) and n.iter.func.attr == "traverse"
+            ]
+            if inner and isinstance(node.target, ast.Name):
+                return node.target.id
+    return None
+
+
+def _joined_list_name(fn: ast.AST) -> Optional[str]:
+    """X of the final `return "<sep>".join(X)`."""
+    for node in walk_no_nested(fn):
+        if isinstance(node, ast.Return) and isinstance(node.value, ast.Call) and isinstance(node.value.func, ast.Attribute) and node.value.func.attr == "join":
+            if node.value.args and isinstance(node.value.args[0], ast.Name):
+                return node.value.args[0].id
+    return None
+
+
 def _kind_chains(fn: ast.AST):
     """Top if/elif chains dispatching on an event kind: (first If, [(kinds, body)], else body)."""
     out = []
@@ -102,7 +147,7 @@ def kind_exhaustive(prog: Program) -> RuleResult:
                     continue
                 n += 1
                 construct = f"{modname}:{qual}/dispatch[{subj}]"
-                is_event = subj == "event" or "node_event" in subj
+                is_event = subj in _event_names(fn) or "node_event" in subj
                 want = {"SPECIATION", "DUPLICATION", "HORIZONTAL_TRANSFER"} if is_event else set(ALL_KINDS)
                 # a leaf handled by an enclosing is_leaf()/kind test counts
                 gs = guards(fn, node)
@@ -174,7 +219,7 @@ def kind_agree(prog: Program) -> RuleResult:
     # event source
     src = None
     for node in walk_no_nested(fn):
-        if isinstance(node, ast.Assign) and dotted(node.targets[0]) == "event":
+        if isinstance(node, ast.Assign) and isinstance(node.targets[0], ast.Name) and node.targets[0].id in _event_names(fn):
             src = node.value
     params = func_params(fn)
     if (
@@ -216,8 +261,9 @@ def _layer_appends(stmts_or_node, layer: Optional[str] = None) -> List[Tuple[str
                 isinstance(c.func, ast.Attribute)
                 and c.func.attr == "append"
                 and isinstance(c.func.value, ast.Subscript)
-                and dotted(c.func.value.value) == "layers"
+                and isinstance(c.func.value.value, ast.Name)
                 and isinstance(c.func.value.slice, ast.Constant)
+                and isinstance(c.func.value.slice.value, str)
             ):
                 name = c.func.value.slice.value
                 if layer is None or name == layer:
@@ -291,7 +337,7 @@ def one_event_node(prog: Program) -> RuleResult:
             sk = skeleton(node2.args[0]) if node2.args else None
             if sk and kinds_here:
                 style_of[kinds_here[-1]] = _node_style(sk)
-        if isinstance(node2, ast.Assign) and dotted(node2.targets[0]) == "node_type":
+        if isinstance(node2, ast.Assign) and isinstance(node2.value, ast.Constant) and isinstance(node2.value.value, str) and re.fullmatch(r"\[[a-z ]+\]", node2.value.value):
             gs = guards(mfn, node2)
             kinds_here = [k for g, pol in gs if pol for k in _kinds_in_test(g)[1]]
             if kinds_here and isinstance(node2.value, ast.Constant):
@@ -353,7 +399,9 @@ def one_arrow(prog: Program) -> RuleResult:
                 full = inline(fn, end, call)
                 text = ast.unparse(full)
                 # all_layouts[mapping[branch.right]].anchors[branch.right]
-                ok = bool(re.fullmatch(r"all_layouts\[mapping\[branch\.right\]\]\.anchors\[branch\.right\]", text))
+                # <all layouts>[<mapping>[<branch>.right]].anchors[<branch>.right]
+                m_end = re.fullmatch(r"(\w+)\[(\w+)\[(\w+)\.right\]\]\.anchors\[(\w+)\.right\]", text)
+                ok = bool(m_end) and m_end.group(3) == m_end.group(4)
                 why = text
                 starts_template = sk.text.lstrip().startswith("\\path[transfer branch=")
                 if not starts_template:
@@ -367,53 +415,7 @@ def one_arrow(prog: Program) -> RuleResult:
                     mod,
                     call,
                 )
-    # layout: right = the child outside the subtree
-    lmod = prog.module(LAYOUT)
-    lfn = prog.func(LAYOUT, "_compute_branches")
-    construct = f"{LAYOUT}:_compute_branches/HORIZONTAL_TRANSFER/roles"
-    ok = False
-    why = "conserved/transferred selection not recognised"
-    for node2 in walk_no_nested(lfn):
-        if isinstance(node2, ast.Dict):
-            keys = {k.value: v for k, v in zip(node2.keys, node2.values) if isinstance(k, ast.Constant)}
-            if dotted(keys.get("kind", ast.Constant(value=None))) == "NodeEvent.HORIZONTAL_TRANSFER":
-                left, right = keys.get("left"), keys.get("right")
-                sel = None
-                for n3 in walk_no_nested(lfn):
-                    if (
-                        isinstance(n3, ast.Assign)
-                        and isinstance(n3.targets[0], ast.Tuple)
-                        and isinstance(n3.value, ast.IfExp)
-                        and [dotted(e) for e in n3.targets[0].elts] == ["conserv_gene", "foreign_gene"]
-                    ):
-                        sel = n3.value
-                if sel is not None and isinstance(sel.body, ast.Tuple) and isinstance(sel.orelse, ast.Tuple):
-                    t = sel.test
-                    okt = (
-                        isinstance(t, ast.Call)
-                        and isinstance(t.func, ast.Attribute)
-                        and t.func.attr in ("is_ancestor_of", "is_comparable")
-                        and len(t.args) == 2
-                        and dotted(t.args[0]) == "root_species"
-                    )
-                    if okt:
-                        tested = ast.unparse(t.args[1])  # mapping[left_gene]
-                        m = re.fullmatch(r"mapping\[(\w+)\]", tested)
-                        if m:
-                            first = m.group(1)
-                            b = [dotted(e) for e in sel.body.elts]
-                            o = [dotted(e) for e in sel.orelse.elts]
-                            if b[0] == first and o[1] == first and b[1] == o[0] and b[1] != first:
-                                if dotted(left) == "conserv_gene" and dotted(right) == "foreign_gene":
-                                    ok = True
-                                else:
-                                    why = f"left={short(left)}, right={short(right)}"
-                            else:
-                                why = f"selection `{short(sel)}` does not put the tested child first"
-    if ok:
-        res.ok(construct, "left = child below the node's species (conserved), right = the other (transferred)")
-    else:
-        res.fail(construct, f"the transfer branch does not record conserved/transferred children as left/right: {why}", lmod, lfn)
+    # which child the layout records as `right` is decided over the relational model by LAYOUT-SIDES
     return res
 
 
@@ -460,8 +462,9 @@ def loss_markers(prog: Program) -> RuleResult:
                 raise AnalysisError("_add_losses call with an unexpected signature")
             gene, start, end = c.args[1], c.args[2], c.args[3]
             end_text = ast.unparse(end)
-            offset = {"root_species": -1, "root_species.up": 0}.get(end_text)
-            start_ok = ast.unparse(start) == f"mapping[{ast.unparse(gene)}]"
+            sp = _species_loop_var(fn) or "root_species"
+            offset = {sp: -1, f"{sp}.up": 0}.get(end_text)
+            start_ok = any(ast.unparse(start) == f"{m}[{ast.unparse(gene)}]" for m in _mapping_names(fn))
             observed.append((ast.unparse(gene), offset, start_ok, c))
         want = expected[kind]
         construct = f"{LAYOUT}:_compute_branches/{kind}/losses"
@@ -480,8 +483,7 @@ def loss_markers(prog: Program) -> RuleResult:
                 )
             if not start_ok:
                 problems.append(f"`{short(c, 70)}` does not start at the species of the child it is given")
-        if kind == "HORIZONTAL_TRANSFER" and observed and observed[0][0] != "conserv_gene":
-            problems.append("losses are inserted on the transferred child instead of the conserved one")
+        # (which child is the conserved one is decided over the relational model by LAYOUT-SIDES)
         if problems:
             res.fail(construct, "; ".join(problems), mod, arm)
         else:
@@ -607,7 +609,7 @@ def style_defined(prog: Program) -> RuleResult:
     # node_type strings of measure_nodes
     mfn = prog.func(TIKZ, "measure_nodes")
     for node in walk_no_nested(mfn):
-        if isinstance(node, ast.Assign) and dotted(node.targets[0]) == "node_type" and isinstance(node.value, ast.Constant):
+        if isinstance(node, ast.Assign) and isinstance(node.value, ast.Constant) and isinstance(node.value.value, str) and re.fullmatch(r"\[[a-z ]+\]", node.value.value):
             style = node.value.value.strip("[]")
             n += 1
             construct = f"{TIKZ}:measure_nodes/style[{style}]"
@@ -670,6 +672,10 @@ def measure_lockstep(prog: Program) -> RuleResult:
     if len(loops) != 1:
         raise AnalysisError("measure_nodes: loop not recognised")
     counts = set()
+    rets0 = [n for n in walk_no_nested(mfn) if isinstance(n, ast.Return) and isinstance(n.value, ast.Call) and n.value.args]
+    boxes_name = dotted(rets0[0].value.args[0]) if rets0 else None
+    if boxes_name is None:
+        raise AnalysisError("measure_nodes: the list handed to tex.measure was not found")
     for path in paths(loops[0].body):
         if path.end == "raise" or not consistent(path.conds):
             continue
@@ -678,7 +684,7 @@ def measure_lockstep(prog: Program) -> RuleResult:
             cnt += sum(
                 1
                 for c in calls_in(ev)
-                if isinstance(c.func, ast.Attribute) and c.func.attr == "append" and dotted(c.func.value) == "boxes"
+                if isinstance(c.func, ast.Attribute) and c.func.attr == "append" and dotted(c.func.value) == boxes_name
             )
         counts.add(cnt)
         if path.end in ("continue", "break"):
@@ -694,7 +700,7 @@ def measure_lockstep(prog: Program) -> RuleResult:
         and isinstance(rets[0].value, ast.Call)
         and dotted(rets[0].value.func) == "tex.measure"
         and rets[0].value.args
-        and dotted(rets[0].value.args[0]) == "boxes"
+        and dotted(rets[0].value.args[0]) == boxes_name
     )
     if okr:
         res.ok(f"{TIKZ}:measure_nodes/return", "returns tex.measure(boxes, ...) unchanged")
@@ -838,10 +844,22 @@ def picture_env(prog: Program) -> RuleResult:
     )
     mod = prog.module(TIKZ)
     fn = prog.func(TIKZ, "render")
+    result_name = _joined_list_name(fn)
+    if result_name is None:
+        raise AnalysisError("render: `return <sep>.join(<lines>)` not found")
+    # the layers dict: the local bound to a dict display whose values are list displays
+    layers_name = None
+    for node in walk_no_nested(fn):
+        if isinstance(node, (ast.Assign, ast.AnnAssign)) and isinstance(node.value, ast.Dict) and node.value.values and all(isinstance(v, ast.List) for v in node.value.values):
+            tgt = node.targets[0] if isinstance(node, ast.Assign) else node.target
+            if isinstance(tgt, ast.Name):
+                layers_name = tgt.id
+    if layers_name is None:
+        raise AnalysisError("render: the dictionary of layers (a dict display of list displays) was not found")
     seq = []
     for stmt in fn.body:
         for c in calls_in(stmt):
-            if isinstance(c.func, ast.Attribute) and c.func.attr in ("append", "extend") and dotted(c.func.value) == "result":
+            if isinstance(c.func, ast.Attribute) and c.func.attr in ("append", "extend") and dotted(c.func.value) == result_name:
                 arg = c.args[0] if c.args else None
                 sk = skeleton(arg) if arg is not None else None
                 if sk and "\\begin{tikzpicture}" in sk.text:
@@ -856,7 +874,7 @@ def picture_env(prog: Program) -> RuleResult:
                     seq.append(("comment", c, loops_around(fn, c)))
                 else:
                     seq.append(("other", c, loops_around(fn, c)))
-        if isinstance(stmt, ast.Assign) and dotted(stmt.targets[0]) == "result":
+        if isinstance(stmt, ast.Assign) and dotted(stmt.targets[0]) == result_name:
             seq.append(("init", stmt, []))
     kinds = [k for k, _c, _l in seq]
     construct = f"{TIKZ}:render/structure"
@@ -880,7 +898,7 @@ def picture_env(prog: Program) -> RuleResult:
         n
         for n in fn.body
         if isinstance(n, ast.For) and isinstance(n.iter, ast.Call) and isinstance(n.iter.func, ast.Attribute)
-        and n.iter.func.attr in ("items", "values") and dotted(n.iter.func.value) == "layers"
+        and n.iter.func.attr in ("items", "values") and dotted(n.iter.func.value) == layers_name
     ]
     if len(layer_loops) != 1:
         problems.append("the loop over all layers was not found")
@@ -889,7 +907,7 @@ def picture_env(prog: Program) -> RuleResult:
     ):
         problems.append("some layers are skipped")
     rets = [n for n in walk_no_nested(fn) if isinstance(n, ast.Return)]
-    if not (len(rets) == 1 and isinstance(rets[0].value, ast.Call) and ast.unparse(rets[0].value.func) == "'\\n'.join" and dotted(rets[0].value.args[0]) == "result"):
+    if not (len(rets) == 1 and isinstance(rets[0].value, ast.Call) and ast.unparse(rets[0].value.func) == "'\\n'.join" and dotted(rets[0].value.args[0]) == result_name):
         problems.append("the result is not the newline-joined list of emitted lines")
     if problems:
         res.fail(construct, "; ".join(problems), mod, fn)
@@ -899,7 +917,7 @@ def picture_env(prog: Program) -> RuleResult:
     used = {l for q, f in prog.defs(TIKZ).items() if isinstance(f, FuncNode) for l, _c in _layer_appends(f)}
     declared: Set[str] = set()
     for node in walk_no_nested(fn):
-        if isinstance(node, (ast.Assign, ast.AnnAssign)) and dotted(node.targets[0] if isinstance(node, ast.Assign) else node.target) == "layers":
+        if isinstance(node, (ast.Assign, ast.AnnAssign)) and dotted(node.targets[0] if isinstance(node, ast.Assign) else node.target) == layers_name:
             if isinstance(node.value, ast.Dict):
                 declared = {k.value for k in node.value.keys if isinstance(k, ast.Constant)}
     construct = f"{TIKZ}:render/layers"
@@ -1300,10 +1318,24 @@ def escape_taint(prog: Program) -> RuleResult:
         mod = prog.module(modname)
         fn = prog.func(modname, fname)
 
-        def is_source(expr: ast.AST) -> bool:
+        # branch records (their .name is the label that was escaped when the layout built it)
+        branch_vars: Set[str] = set()
+        synteny_vars: Set[str] = set()
+        for node0 in ast.walk(fn):
+            if isinstance(node0, ast.For) and isinstance(node0.iter, ast.Call) and isinstance(node0.iter.func, ast.Attribute):
+                base0 = node0.iter.func.value
+                if isinstance(base0, ast.Attribute) and base0.attr == "branches" and node0.iter.func.attr in ("items", "values"):
+                    tgt0 = node0.target
+                    last = tgt0.elts[-1] if isinstance(tgt0, ast.Tuple) else tgt0
+                    if isinstance(last, ast.Name):
+                        branch_vars.add(last.id)
+            if isinstance(node0, ast.Assign) and any(isinstance(x, ast.Attribute) and x.attr == "syntenies" for x in ast.walk(node0.value)):
+                synteny_vars |= {t.id for t in node0.targets if isinstance(t, ast.Name)}
+
+        def is_source(expr: ast.AST, branch_vars=branch_vars, synteny_vars=synteny_vars) -> bool:
             if isinstance(expr, ast.Attribute) and expr.attr == "name" and isinstance(expr.value, ast.Name):
-                return expr.value.id not in ("branch",)
-            if isinstance(expr, ast.Subscript) and dotted(expr.value) == "syntenies":
+                return expr.value.id not in branch_vars
+            if isinstance(expr, ast.Subscript) and (dotted(expr.value) in synteny_vars or (dotted(expr.value) or "").endswith(".syntenies")):
                 return True
             return False
 
@@ -1392,16 +1424,49 @@ def label_omit(prog: Program) -> RuleResult:
     )
     mod = prog.module(LAYOUT)
     fn = prog.func(LAYOUT, "_compute_branches")
+    # roles: the label local (stored under "name"), the formatted synteny, the synteny mapping, the gene loop variable
+    label_vars: Set[str] = set()
+    for node in walk_no_nested(fn):
+        if isinstance(node, ast.Dict):
+            keys = {k.value: v for k, v in zip(node.keys, node.values) if isinstance(k, ast.Constant)}
+            if "kind" in keys and isinstance(keys.get("name"), ast.Name):
+                label_vars.add(keys["name"].id)
+    syn_text = {
+        t.id for node in walk_no_nested(fn) if isinstance(node, ast.Assign)
+        and any(isinstance(c, ast.Call) and dotted(c.func) == "format_synteny" for c in ast.walk(node.value))
+        for t in node.targets if isinstance(t, ast.Name)
+    }
+    syn_map = {
+        t.id for node in walk_no_nested(fn) if isinstance(node, ast.Assign)
+        and any(isinstance(x, ast.Attribute) and x.attr == "syntenies" for x in ast.walk(node.value))
+        for t in node.targets if isinstance(t, ast.Name)
+    }
+    gene_var = None
+    sp = _species_loop_var(fn)
+    for node in ast.walk(fn):
+        if isinstance(node, ast.For) and isinstance(node.target, ast.Name) and node.target.id != sp and isinstance(node.iter, ast.Call) and isinstance(node.iter.func, ast.Attribute) and node.iter.func.attr == "traverse":
+            if any(isinstance(x, ast.Dict) for st in node.body for x in ast.walk(st)):
+                gene_var = node.target.id
+    if not label_vars or not syn_text or not syn_map or gene_var is None:
+        raise AnalysisError(f"LABEL-OMIT: roles not recognised (label {sorted(label_vars)}, synteny text {sorted(syn_text)}, mapping {sorted(syn_map)}, gene {gene_var})")
+
+    def canon(expr: ast.AST) -> str:
+        text = ast.unparse(expr)
+        for m in syn_map:
+            text = re.sub(rf"\b{re.escape(m)}\b", "SYN", text)
+        text = re.sub(rf"\b{re.escape(gene_var)}\b", "G", text)
+        return text
+
     found = 0
     for node in walk_no_nested(fn):
-        if isinstance(node, ast.Assign) and dotted(node.targets[0]) == "name":
+        if isinstance(node, ast.Assign) and dotted(node.targets[0]) in label_vars:
             gs = guards(fn, node)
             in_leaf = any(pol and isinstance(g, ast.Call) and isinstance(g.func, ast.Attribute) and g.func.attr == "is_leaf" for g, pol in gs)
             if in_leaf:
                 continue
             found += 1
             construct = f"{LAYOUT}:_compute_branches/ancestral-label"
-            value = inline(fn, node.value, node, stop=lambda n: n in ("synteny", "syntenies"))
+            value = inline(fn, node.value, node, stop=lambda n: n in syn_text or n in syn_map)
             ok = False
             why = f"`{short(node.value)}`"
             if isinstance(value, ast.IfExp):
@@ -1412,17 +1477,17 @@ def label_omit(prog: Program) -> RuleResult:
                 if not neg:
                     shown, blank = blank, shown
                 is_blank = isinstance(blank, ast.Constant) and blank.value == ""
-                is_syn = dotted(shown) == "synteny"
+                is_syn = dotted(shown) in syn_text
                 cmp_ok = False
                 if isinstance(test, ast.Compare) and len(test.ops) == 1 and isinstance(test.ops[0], ast.Eq):
-                    sides = sorted(ast.unparse(s) for s in (test.left, test.comparators[0]))
+                    sides = sorted(canon(x) for x in (test.left, test.comparators[0]))
                     cmp_ok = sides in (
-                        ["syntenies.get(root_gene)", "syntenies.get(root_gene.up)"],
-                        ["syntenies.get(root_gene.up)", "syntenies[root_gene]"],
+                        ["SYN.get(G)", "SYN.get(G.up)"],
+                        ["SYN.get(G.up)", "SYN[G]"],
                     )
                 ok = is_blank and is_syn and cmp_ok
                 why = f"label = {short(value, 120)}"
-            elif dotted(value) == "synteny":
+            elif dotted(value) in syn_text:
                 ok, why = True, "label always shown"
             if ok:
                 res.ok(construct, why)
@@ -1439,12 +1504,12 @@ def label_omit(prog: Program) -> RuleResult:
     leaf_names = [
         n
         for n in walk_no_nested(fn)
-        if isinstance(n, ast.Assign) and dotted(n.targets[0]) == "name" and dotted(n.value) == "synteny"
+        if isinstance(n, ast.Assign) and dotted(n.targets[0]) in label_vars and dotted(n.value) in syn_text
     ]
     okl = False
     for n in leaf_names:
         gs = guards(fn, n)
-        if any(pol and dotted(g) == "synteny" for g, pol in gs):
+        if any(pol and dotted(g) in syn_text for g, pol in gs):
             okl = True
     if okl:
         res.ok(f"{LAYOUT}:_compute_branches/leaf-label", "a leaf with a synteny is labelled by it")
